@@ -417,6 +417,36 @@ theorem C19_map_cstr_labelwise (fd : FileDict) (r : Option (List (List Nat))) (o
   intro col hcol
   simpa [fill0] using this col (by simpa [fill0] using hcol)
 
+/-- **A cell naming a sensor carries that sensor's component, on a checked geometry**
+    (`C19_map_sensor` without its side condition): acceptance guarantees that no constraint is
+    called like a sensor (every constraint row is a mapping string that is NOT a sensor name),
+    so with distinct names a cell holding `names[k]` is mapped to `phi[k]`, whatever the
+    constraints are.  `cons` is the dictionary of constraint values of `C19_map_cells`. -/
+theorem C19_map_sensor_checked (fd : FileDict) (r : Option (List (List Nat))) (out : Out2)
+    (phi : List Rat) (cons : List (String × Rat)) (k : Nat) (s : String)
+    (h : checkGeo2 fd r = .ok out)
+    (h0 : out.cstr = none → cons = []) (h1 : ∀ c, out.cstr = some c → cstrVals c phi = .ok cons)
+    (hl : phi.length = out.names.length) (hn : out.names.Nodup) (hk : out.names[k]? = some (some s)) :
+    ∃ v, phi[k]? = some v ∧ mapCell (out.names.zip phi) cons (.str s) = .ok (some v) := by
+  apply C19_map_sensor phi out.names cons k s hl hn hk
+  cases hc : out.cstr with
+  | none => rw [h0 hc]; rfl
+  | some c =>
+    apply dictGet_none_of_not_mem
+    intro p hp e
+    have hmem : p.1 ∈ c.index := cstrVals_keys (h1 c hc) p hp
+    rw [(C19_cstr_align fd r out c h hc).1] at hmem
+    obtain ⟨nm, pt, mp, cs0, g⟩ := checkGeo2With_ok h
+    have hcs : cs0 = cstrSheet fd := by
+      have := g.hcs; rw [cstrOf_nil] at this; exact (Option.some.inj this).symm
+    subst hcs
+    have := (geo2Names_none_iff.1 g.hnames).2.2
+    simp only [List.all_eq_true] at this
+    have h2 := this p.1 (by simpa [fill0] using hmem)
+    simp only [mapCstrs, List.contains_eq_mem, List.mem_filter, decide_eq_true_eq, Bool.and_eq_true,
+      Bool.not_eq_eq_eq_not, Bool.not_true, decide_eq_false_iff_not] at h2
+    exact h2.2.1 (e ▸ List.mem_of_getElem? hk)
+
 /-- scaling the shape scales the constraint combination (`phi * scaleF` before the mapping) -/
 theorem C19_dot_scale (nums phi : List Rat) (s : Rat) : dot nums (phi.map (· * s)) = dot nums phi * s :=
   dot_scale nums phi s
@@ -462,6 +492,10 @@ example : checkGeo2 exFd2 none = .ok exOut2 ∧ exOut2.cstr = some ⟨["K"], ["a
     exOut2.names.Nodup ∧ (cstrSheet exFd2).cols.Nodup := by decide +kernel
 example : (((cstrSheet exFd2).cols.zip [n (1/2), Cell.nan]).map fun p =>
     numOr0 p.2 * phiAt exOut2.names [1, 2, 3] p.1).sum = 1 := by decide +kernel
+/-- `C19_map_sensor_checked` on the same geometry: cell naming `b = names[1]`, constraint values `[("K", 1)]` -/
+example : (∀ c, exOut2.cstr = some c → cstrVals c [1, 2, 3] = .ok [("K", 1)]) ∧
+    [(1 : Rat), 2, 3].length = exOut2.names.length ∧ exOut2.names[1]? = some (some "b") :=
+  ⟨fun c hc => by cases hc; decide +kernel, by decide, by decide⟩
 /-- `C19_displace_default_sign` -/
 example : exPts.cells[1]? = some [n 4, n 5, n 6] ∧ (1 < exPts.nrows) ∧ (0 < exPts.ncols) := by decide +kernel
 
